@@ -13,6 +13,7 @@ ap = argparse.ArgumentParser()
 ap.add_argument("id"); ap.add_argument("--n", type=int, default=30); ap.add_argument("--seed", type=int, default=1)
 ap.add_argument("--workers", type=int, default=2); ap.add_argument("--out", default="mutscan")
 ap.add_argument("--whole-max", type=int, default=700)
+ap.add_argument("--files", default="", help="comma separated files (relative to the repository) to mutate as a whole instead of the anchors")
 A = ap.parse_args()
 V = os.path.dirname(os.path.dirname(os.path.abspath(__file__)))
 env = dict(os.environ, GOFLAGS="-mod=mod", GOPROXY="off", GOSUMDB="off", GOTOOLCHAIN="local")
@@ -31,7 +32,12 @@ def decls(path):
     names |= set(re.findall(r"(?m)^(?:var|const) ([A-Za-z_][A-Za-z0-9_]*)", src))
     return names, src.count("\n")
 sites = []
-for f in prop["anchors"]["files"]:
+anchor_files = prop["anchors"]["files"]
+if A.files:
+    anchor_files = [f.strip() for f in A.files.split(",") if f.strip()]
+    idents = set()
+    A.whole_max = 10**9
+for f in anchor_files:
     path = "/repo/" + f
     if not f.endswith(".go") or f.endswith("_test.go") or not os.path.exists(path): continue
     names, nlines = decls(path)
